@@ -44,6 +44,7 @@ func c13Gen(seed uint64, tier string) *Plan {
 	}
 	p.Configs = []*Config{cfg}
 	p.Insts = []InstPlan{{Name: "a"}}
+	p.RecvJitter = 900 * time.Microsecond
 	p.Opts = InstOpts{AlertGCInterval: rng.Dur(5*time.Second, 4*time.Minute) + 29, DispatchMaintenance: 30*time.Second + 7, MaintenanceInterval: 15*time.Minute + 13}
 	sets := genLabelSets(rng.Fork("sets"), rng.Range(1, 4))
 	b := &planBuilder{p: p, used: map[Dur]bool{}}
